@@ -17,7 +17,7 @@
         Xa Xb Xd Xf   fillers of the four kinds with unrelated values
    (all sequences of length 2..MaxPlan with at least one of A/B/A2), so that
    collection kinds are interleaved in every possible way.                   *)
-EXTENDS KeySpace, Json
+EXTENDS KeySpace, Chunks, Json
 
 CONSTANTS NKeys, NVals, MaxTuple, MaxPlan
 VARIABLES tup, res, out
@@ -37,6 +37,9 @@ BlameIsRight == LET b == TogetherBad(tup, res, FALSE) IN
                 /\ (b = {}) = TogetherOK(tup, res)
                 /\ ("KeyClash" \in b) => \E i, j \in DOMAIN tup : tup[i].out = tup[j].out /\ tup[i].alone # tup[j].alone
                 /\ ("Interleaved" \in b) => \E i, j \in DOMAIN tup : tup[i].kind # tup[j].kind
+\* two collections that share their output key but have different values cannot both come back right:
+\* this is why sibling collections must get different names whenever their values differ
+SameNameIsWrong == (Len(tup) = 2 /\ tup[1].out = tup[2].out /\ tup[1].alone # tup[2].alone) => ~TogetherOK(tup, res)
 \* the regrouping model goes wrong on clash-free tuples only when kinds are interleaved (checked with Impl = "grouped")
 GroupedWrongOnlyIfInterleaved == (TupleClashes(tup) = {} /\ ~TogetherOK(tup, res)) => Interleaved(tup)
 
@@ -58,4 +61,136 @@ PInit == /\ tup = <<>> /\ res = <<>>
          /\ \E f \in Families : \E g \in f.progs : \E p \in Patterns :
               out = ToJson([fam |-> f.fam, prog |-> g, pat |-> p])
 PNext == UNCHANGED <<tup, res, out>>
+-----------------------------------------------------------------------------
+(* Sibling mode (SInit/SNext): every case [op, ckind, shape, chunks, a, b] of the table below: a base
+   collection of kind ckind with the given shape under EVERY chunking (all-unit chunks included), one
+   operation, and two values a # b of its one varied argument (written as text; harness/drivers/C13.py
+   holds the interpretation of each operation for dask and for the eager reference).  nds = the
+   numbers of base dimensions the operation is applied to (0 = the base is not an array).      *)
+CONSTANT SibShapes          \* array base shapes
+O(op, ckind, nds, args) == [op |-> op, ckind |-> ckind, nds |-> nds, args |-> args]
+SibOps == {
+  O("array.setitem.value", "array", {1, 2}, <<"-1", "-2", "7">>),
+  O("array.setitem.arrayvalue", "array", {1, 2}, <<"70", "80">>),
+  O("array.setitem.index", "array", {1, 2}, <<"0", "1", "-1">>),
+  O("array.setitem.slice", "array", {1, 2}, <<"::2", "1::2", ":1">>),
+  O("array.setitem.mask", "array", {1, 2}, <<"0", "1", "2">>),
+  O("array.stack.axis", "array", {1, 2}, <<"0", "1", "2", "-1">>),
+  O("array.concatenate.axis", "array", {2}, <<"0", "1">>),
+  O("array.getitem.int", "array", {1, 2}, <<"0", "1", "-1">>),
+  O("array.getitem.slice", "array", {1, 2}, <<"0:1", "1:2", "::-1", "::2">>),
+  O("array.getitem.list", "array", {1, 2}, <<"0,1", "1,0", "1,1">>),
+  O("array.getitem.lastaxis", "array", {2}, <<"0", "1">>),
+  O("array.getitem.newaxis", "array", {1, 2}, <<"0", "1">>),
+  O("array.sum.axis", "array", {2}, <<"0", "1", "None", "-1">>),
+  O("array.sum.keepdims", "array", {1, 2}, <<"0", "1">>),
+  O("array.sum.dtype", "array", {1, 2}, <<"f8", "i8">>),
+  O("array.max.axis", "array", {2}, <<"0", "1">>),
+  O("array.argmax.axis", "array", {2}, <<"0", "1">>),
+  O("array.cumsum.axis", "array", {2}, <<"0", "1">>),
+  O("array.mean.axis", "array", {2}, <<"0", "1", "None">>),
+  O("array.var.ddof", "array", {1, 2}, <<"0", "1">>),
+  O("array.map_blocks.func", "array", {1, 2}, <<"inc", "dec", "neg">>),
+  O("array.map_blocks.closure", "array", {1, 2}, <<"1", "2">>),
+  O("array.map_blocks.kwargs", "array", {1, 2}, <<"1", "2">>),
+  O("array.map_blocks.args", "array", {1, 2}, <<"1", "2">>),
+  O("array.elemwise.add", "array", {1, 2}, <<"1", "2", "1.0">>),
+  O("array.elemwise.mul", "array", {1, 2}, <<"2", "3">>),
+  O("array.elemwise.rsub", "array", {1, 2}, <<"1", "2">>),
+  O("array.elemwise.pow", "array", {1, 2}, <<"2", "3">>),
+  O("array.elemwise.cmp", "array", {1, 2}, <<"0", "1">>),
+  O("array.elemwise.arrayoperand", "array", {1, 2}, <<"1", "2">>),
+  O("array.where.cond", "array", {1, 2}, <<"0", "1">>),
+  O("array.where.x", "array", {1, 2}, <<"-1", "-2">>),
+  O("array.where.y", "array", {1, 2}, <<"-1", "-2">>),
+  O("array.astype.dtype", "array", {1, 2}, <<"f8", "i4", "u8">>),
+  O("array.transpose.axes", "array", {2}, <<"0,1", "1,0">>),
+  O("array.reshape.target", "array", {1, 2}, <<"-1", "1,-1", "-1,1", "2,-1">>),
+  O("array.roll.shift", "array", {1, 2}, <<"1", "2">>),
+  O("array.roll.axis", "array", {2}, <<"0", "1">>),
+  O("array.pad.width", "array", {1, 2}, <<"1", "2">>),
+  O("array.pad.mode", "array", {1, 2}, <<"constant", "edge", "wrap">>),
+  O("array.pad.cval", "array", {1, 2}, <<"0", "5">>),
+  O("array.clip.max", "array", {1, 2}, <<"1", "2">>),
+  O("array.flip.axis", "array", {2}, <<"0", "1">>),
+  O("array.repeat.repeats", "array", {1, 2}, <<"1", "2">>),
+  O("array.repeat.axis", "array", {2}, <<"0", "1">>),
+  O("array.tile.reps", "array", {1, 2}, <<"1", "2">>),
+  O("array.expand_dims.axis", "array", {1, 2}, <<"0", "1">>),
+  O("array.rot90.k", "array", {2}, <<"1", "2", "3">>),
+  O("array.tril.k", "array", {2}, <<"0", "1", "-1">>),
+  O("array.diagonal.offset", "array", {2}, <<"0", "1">>),
+  O("array.take.indices", "array", {1, 2}, <<"0,1", "1,0", "1">>),
+  O("array.take.axis", "array", {2}, <<"0", "1">>),
+  O("array.isin.values", "array", {1, 2}, <<"0", "1", "0,1">>),
+  O("array.full_like.fill", "array", {1, 2}, <<"1", "2">>),
+  O("array.broadcast_to.shape", "array", {1}, <<"2", "3">>),
+  O("array.rechunk.target", "array", {1, 2}, <<"1", "2">>),
+  O("array.dot.operand", "array", {1, 2}, <<"1", "2">>),
+  O("array.diff.n", "array", {1, 2}, <<"1", "2">>),
+  O("array.squeezeexpand.axis", "array", {2}, <<"0", "1", "2">>),
+  O("bag.map.func", "bag", {0}, <<"inc", "dec", "neg">>),
+  O("bag.map.closure", "bag", {0}, <<"1", "2">>),
+  O("bag.map.kwargs", "bag", {0}, <<"1", "2">>),
+  O("bag.map.args", "bag", {0}, <<"1", "2">>),
+  O("bag.filter.pred", "bag", {0}, <<"even", "odd", "pos">>),
+  O("bag.remove.pred", "bag", {0}, <<"even", "odd">>),
+  O("bag.fold.initial", "bag", {0}, <<"0", "10">>),
+  O("bag.fold.binop", "bag", {0}, <<"add", "mul", "max">>),
+  O("bag.reduction.func", "bag", {0}, <<"sum", "max", "min">>),
+  O("bag.topk.k", "bag", {0}, <<"1", "2">>),
+  O("bag.pluck.key", "bag", {0}, <<"0", "1">>),
+  O("bag.pluck.default", "bag", {0}, <<"0", "9">>),
+  O("bag.map_partitions.func", "bag", {0}, <<"list", "rev", "len1">>),
+  O("bag.map_partitions.kwargs", "bag", {0}, <<"1", "2">>),
+  O("bag.starmap.kwargs", "bag", {0}, <<"1", "2">>),
+  O("bag.accumulate.initial", "bag", {0}, <<"0", "10">>),
+  O("bag.foldby.initial", "bag", {0}, <<"0", "10">>),
+  O("bag.groupby.key", "bag", {0}, <<"even", "mod3">>),
+  O("bag.repartition.n", "bag", {0}, <<"1", "2">>),
+  O("delayed.call.args", "delayed", {0}, <<"1", "2", "1.0">>),
+  O("delayed.call.kwargs", "delayed", {0}, <<"1", "2">>),
+  O("delayed.call.kwname", "delayed", {0}, <<"k", "m">>),
+  O("delayed.call.func", "delayed", {0}, <<"inc", "dec", "neg">>),
+  O("delayed.call.closure", "delayed", {0}, <<"1", "2">>),
+  O("delayed.call.listarg", "delayed", {0}, <<"1", "2">>),
+  O("delayed.call.dictarg", "delayed", {0}, <<"1", "2">>),
+  O("delayed.call.delayedarg", "delayed", {0}, <<"1", "2">>),
+  O("delayed.call.nout", "delayed", {0}, <<"0", "1">>),
+  O("delayed.value", "delayed", {0}, <<"1", "2", "1.0">>),
+  O("delayed.getitem", "delayed", {0}, <<"0", "1">>),
+  O("delayed.attr", "delayed", {0}, <<"real", "imag">>),
+  O("delayed.method.args", "delayed", {0}, <<"1", "2">>),
+  O("delayed.operator.const", "delayed", {0}, <<"1", "2">>),
+  O("frame.add.const", "frame", {0}, <<"1", "2">>),
+  O("frame.getitem.col", "frame", {0}, <<"a", "b">>),
+  O("frame.getitem.cols", "frame", {0}, <<"a,b", "b,a">>),
+  O("frame.assign.value", "frame", {0}, <<"1", "2">>),
+  O("frame.loc.start", "frame", {0}, <<"1", "2">>),
+  O("frame.clip.upper", "frame", {0}, <<"2", "3">>),
+  O("frame.shift.periods", "frame", {0}, <<"1", "2">>),
+  O("frame.map_partitions.kwargs", "frame", {0}, <<"1", "2">>),
+  O("frame.astype.dtype", "frame", {0}, <<"f8", "i4">>),
+  O("frame.rename.col", "frame", {0}, <<"x", "y">>),
+  O("frame.isin.values", "frame", {0}, <<"1", "2">>),
+  O("frame.series.map.func", "frame", {0}, <<"inc", "dec">>),
+  O("frame.filter.threshold", "frame", {0}, <<"1", "2">>),
+  O("frame.sum.axis", "frame", {0}, <<"0", "1">>),
+  O("frame.drop.col", "frame", {0}, <<"a", "b">>),
+  O("frame.fillna.value", "frame", {0}, <<"0", "9">>) }
+
+Parts6 == { << <<6>> >>, << <<3, 3>> >>, << <<2, 4>> >>, << <<1, 1, 1, 1, 1, 1>> >> }
+Parts4 == { << <<4>> >>, << <<2, 2>> >>, << <<1, 1, 1, 1>> >> }
+SibBases(o) == IF o.ckind = "array"
+               THEN UNION { [shape: { sh }, chunks: NDChunkings(sh)] : sh \in { x \in SibShapes : Len(x) \in o.nds } }
+               ELSE IF o.ckind = "bag" THEN [shape: { <<6>> }, chunks: Parts6]
+               ELSE IF o.ckind = "frame" THEN [shape: { <<4>> }, chunks: Parts4]
+               ELSE [shape: { <<1>> }, chunks: { << <<1>> >> }]
+SiblingCases == UNION { UNION { { [op |-> o.op, ckind |-> o.ckind, shape |-> bs.shape, chunks |-> bs.chunks, a |-> o.args[ij[1]], b |-> o.args[ij[2]]]
+                                  : ij \in { pq \in (DOMAIN o.args) \X (DOMAIN o.args) : pq[1] < pq[2] } }   \* unordered pairs a # b
+                                : bs \in SibBases(o) } : o \in SibOps }
+ArgsDiffer == \A o \in SibOps : \A i, j \in DOMAIN o.args : i # j => o.args[i] # o.args[j]
+SInit == /\ tup = <<>> /\ res = <<>>
+         /\ \E c \in SiblingCases : out = ToJson(c)
+SNext == UNCHANGED <<tup, res, out>>
 =============================================================================
